@@ -18,7 +18,7 @@ claim("C02",
       "Decides structural necessary conditions of per-stream independence on every path: neither the server's per-session stream "
       "accept loop nor the client's local accept loop synchronously runs anything that can wait on the accepted stream (call cone "
       "to blocking primitives); Channel implementations hold no connection state and OpenConnection never stores into its receiver; "
-      "no OpenStream / protocol selection inside the upstream mutex. every io.CopyBuffer scratch buffer is allocated per copy; the shared physical connection/session is closed only by a failed session set-up or Shutdown, never by a per-channel path. accept loops do not park on channels / sync waits; every serving goroutine gets the stream of its own iteration (no shared re-assigned variable); Upstreams.Shutdown is not called from the client's connection path (unless the session is known dead); the smux receive bucket shared by all streams is not reduced below the library default; Does not decide scheduling, smux flow control or byte isolation inside smux. Per-connection goroutines (go targets inside accept loops), their same-receiver helpers and per-connection closures store nothing into the object they all share. The shared physical session is (re)opened only under the mutex and under a reuse test made while it is held. The code that runs for one logical connection never closes the multiplexer session shared by all of them (R02.10).",
+      "no OpenStream / protocol selection inside the upstream mutex. every io.CopyBuffer scratch buffer is allocated per copy; the shared physical connection/session is closed only by a failed session set-up or Shutdown, never by a per-channel path. accept loops do not park on channels / sync waits; every serving goroutine gets the stream of its own iteration (no shared re-assigned variable); Upstreams.Shutdown is not called from the client's connection path (unless the session is known dead); the smux receive bucket shared by all streams is not reduced below the library default; Does not decide scheduling, smux flow control or byte isolation inside smux. Per-connection goroutines (go targets inside accept loops), their same-receiver helpers and per-connection closures store nothing into the object they all share. The shared physical session is (re)opened only under the mutex and under a reuse test made while it is held. The code that runs for one logical connection never closes the multiplexer session shared by all of them (R02.10). No type assertion that can panic in the server's per-connection code (R02.11).",
       "Not decided: fairness, smux's shared receive buffer, the multistream/smux first-frame race.")
 
 claim("C14",
@@ -26,14 +26,14 @@ claim("C14",
       "Decides the structural conditions without which finished connections leave residue, on all paths: every completion-report channel "
       "can absorb all reports of its sender goroutines (capacity + guaranteed receives >= sends); after PipeData both ends are closed on "
       "every path (inside it, or in each caller, its defers, or its callers); after a failed AcceptStream no path returns to AcceptStream "
-      "without return / back-off (smux IsClosed() does not count: it stays false after a latched socket error). every handler that accepted a connection or stream closes it on each path on which it does not hand it on. the shared physical connection/session are replaced only under the mutex after a reuse test made under it (no orphaned session). a wrapper is marked closed only by its own Close. Does not measure goroutines, descriptors or CPU. Close of a carrier wrapper never waits for the peer without a bound. The completion-channel capacity rule also follows channels captured by the goroutine's closure. AcceptConnection closes the carrier on every failing return unless the error says it is closed already (R14.8).",
+      "without return / back-off (smux IsClosed() does not count: it stays false after a latched socket error). every handler that accepted a connection or stream closes it on each path on which it does not hand it on. the shared physical connection/session are replaced only under the mutex after a reuse test made under it (no orphaned session). a wrapper is marked closed only by its own Close. Does not measure goroutines, descriptors or CPU. Close of a carrier wrapper never waits for the peer without a bound. The completion-channel capacity rule also follows channels captured by the goroutine's closure. AcceptConnection closes the carrier on every failing return unless the error says it is closed already (R14.8). Every Lock in the client's upstream/listener code and in the server package is released on every path (R14.9).",
       "Not decided: measured footprint, library goroutines, carrier left open after a failed handshake.")
 
 claim("C15",
       "accept-loop shape analysis over SSA + synchronous call cone to blocking primitives",
       "Decides, for every listener accept loop of package server (socket, DNS-over-socket, KCP/UDP), that no call inside the loop that "
       "receives the accepted connection can wait for that peer (handshake read, TLS handshake, any Read) unless it is started with go; "
-      "no server-side function calls, while holding a mutex field, anything that locks that field again (self-deadlock of the DNS pruner wedges all later peers); accept loops do not park on channels; nothing that can wait for another party is reachable while the DNS user table lock or a server-wide mutex is held; the websocket router installs no middleware bounding requests in flight or their duration; lists every Server implementation and how its peers arrive. Structural necessary condition for 'a stalled peer delays only itself'. No answer is written to a peer, and nothing else waits for one, while a lock shared by all peers of a DNS endpoint is held. Every Lock in the DNS endpoint is released on every path out of the function (R15.6). Every index / slice expression of the handshake parsers is proven in bounds: one peer's request line cannot panic the process that serves the others (R15.7).",
+      "no server-side function calls, while holding a mutex field, anything that locks that field again (self-deadlock of the DNS pruner wedges all later peers); accept loops do not park on channels; nothing that can wait for another party is reachable while the DNS user table lock or a server-wide mutex is held; the websocket router installs no middleware bounding requests in flight or their duration; lists every Server implementation and how its peers arrive. Structural necessary condition for 'a stalled peer delays only itself'. No answer is written to a peer, and nothing else waits for one, while a lock shared by all peers of a DNS endpoint is held. Every Lock in the DNS endpoint is released on every path out of the function (R15.6). Every index / slice expression of the handshake parsers is proven in bounds: one peer's request line cannot panic the process that serves the others (R15.7). A server endpoint's accept loop is left only on the shutdown flag or a closed listener (R15.8).",
       "Not decided: fairness under load, time bounds, tls.Listen's lazy handshake; net/http's per-request goroutine is trusted.")
 
 claim("C17",
@@ -41,7 +41,7 @@ claim("C17",
       "Decides the ordering facts behind 'all data, then end-of-stream': in PipeData no close precedes a copier's completion report; a copier "
       "reports exactly once after io.Copy* and io.EOF only when the copy returned nil; both ends are closed after the pipe ends; the DNS "
       "tunnel's Read methods return io.EOF only under HasData()==false; the DNS client's Close sends the final ack and the Closed option "
-      "before closing its communicator on every live-session path. no per-channel failure path closes the session shared by the other channels. a reader+writer pair closes its write half on every path; after the first copier reported no close waits for the second report; every Write reports the full count on success; Structural, not a delivery proof. A deadline armed on a connection is disarmed in both directions before the connection lives on (a left-over write deadline loses the target's answer and the end-of-stream). SO_LINGER is left at the system default everywhere (no abortive close). A websocket read limit admits the largest message the tunnel's own Write sends (R17.10). Sequence and ack numbers of the DNS carrier are used only in wrap-safe ways: a transfer crossing 65536 chunks still drains and ends (R17.11).",
+      "before closing its communicator on every live-session path. no per-channel failure path closes the session shared by the other channels. a reader+writer pair closes its write half on every path; after the first copier reported no close waits for the second report; every Write reports the full count on success; Structural, not a delivery proof. A deadline armed on a connection is disarmed in both directions before the connection lives on (a left-over write deadline loses the target's answer and the end-of-stream). SO_LINGER is left at the system default everywhere (no abortive close). A websocket read limit admits the largest message the tunnel's own Write sends (R17.10). Sequence and ack numbers of the DNS carrier are used only in wrap-safe ways: a transfer crossing 65536 chunks still drains and ends (R17.11). Every serving goroutine works on the stream accepted for it, so a failing connection closes its own stream (R17.12).",
       "Not decided: timing, half-close, smux FIN ordering, waking a reader blocked in the DNS in-queue.")
 
 claim("C04",
@@ -79,7 +79,7 @@ claim("C06",
       "non-empty negotiated version), server upgrade (parsed, GET, Connection: upgrade, Upgrade == socketace/<negotiated>; failed checks re-bind the "
       "response to a literal whose constant status != 101, evaluated per path), NewServerConnection (both succeeded), negotiateVersion (a supported "
       "element equal to a client element), client (200 / 101 only); and that exactly one buffered reader exists per connection and handshake reads go "
-      "through it, and textproto readers are fed only by that reader, every index/slice expression of the handshake packages is proven in bounds for all peer input (linear-inequality entailment from dominating comparisons and strings.Index contracts, Fourier-Motzkin refutation) — the structural part of the no-crash clause; so the outcome cannot depend on segmentation. No header is written into the nil map of a request/response object built on the same path. Every explicit panic of the handshake code guards a write to an in-memory buffer, never a writer on the peer's connection (R06.7).",
+      "through it, and textproto readers are fed only by that reader, every index/slice expression of the handshake packages is proven in bounds for all peer input (linear-inequality entailment from dominating comparisons and strings.Index contracts, Fourier-Motzkin refutation) — the structural part of the no-crash clause; so the outcome cannot depend on segmentation. No header is written into the nil map of a request/response object built on the same path. Every explicit panic of the handshake code guards a write to an in-memory buffer, never a writer on the peer's connection (R06.7). A header map written by a handshake is that handshake's own map, never the map of a package-level template shared by all of them.",
       "Not decided: net/textproto on arbitrary bytes, header size limits, panics other than index/slice bounds.")
 
 claim("C01",
@@ -88,7 +88,7 @@ claim("C01",
       "the caller's buffer is small and every partial copy stores its remainder back on all paths; BufferedInputConnection.Read delegates to the "
       "bufio.Reader, connections returned by the handshake functions derive from the buffered connection and neither the raw carrier nor the embedded "
       "unbuffered connection is used again; PipeData starts one copier per direction and each reaches io.Copy* with its own reader/writer; both smux "
-      "configurations start from DefaultConfig with MaxFrameSize inside smux's range. every Write([]byte) reports len(p) of the buffer as passed (or the delegate's count) on success and the websocket writer forwards the whole buffer. every serving goroutine works on the connection accepted for it (loop-variable escape); buffers written under a mutex are written under one common mutex at every write site (static lockset consistency); a websocket read limit admits the largest message the tunnel itself sends; Not byte equality. A deadline armed on a connection is disarmed in both directions (or the connection closed) on every path on which the connection lives on as a session — arming and disarming may sit in different functions. A logical connection is piped to the channel whose exact name was negotiated. No codec of the DNS carrier gives ascii85.Decode less than worst-case room (R01.12). The reassembly of a multi-record DNS answer sorts by keys read from the records being sorted (R01.13).",
+      "configurations start from DefaultConfig with MaxFrameSize inside smux's range. every Write([]byte) reports len(p) of the buffer as passed (or the delegate's count) on success and the websocket writer forwards the whole buffer. every serving goroutine works on the connection accepted for it (loop-variable escape); buffers written under a mutex are written under one common mutex at every write site (static lockset consistency); a websocket read limit admits the largest message the tunnel itself sends; Not byte equality. A deadline armed on a connection is disarmed in both directions (or the connection closed) on every path on which the connection lives on as a session — arming and disarming may sit in different functions. A logical connection is piped to the channel whose exact name was negotiated. No codec of the DNS carrier gives ascii85.Decode less than worst-case room (R01.12). The reassembly of a multi-record DNS answer sorts by keys read from the records being sorted (R01.13). The client forgets its shared physical connection only when it is dead or was just closed (R01.14).",
       "Not decided: equality of delivered bytes, library behaviour (smux, gorilla, kcp, crypto/tls), partial writes.")
 
 claim("C16",
@@ -97,7 +97,7 @@ claim("C16",
       "upstreams are tried as Data[0], Data[1], ... with failure continuing and the first success returning, no reordering helper; the shared "
       "connection/session are stored only while the upstream mutex is held (directly or in helpers called only under it) and a new physical "
       "connection is opened only under connection == nil || connection.Closed() inside the critical section; GetTlsConfig is fresh per attempt so one upstream's ServerName cannot leak into the next attempt; the reuse test is evaluated inside the lock region; the flag-carrying wrappers' Close marks them closed on every path (the reuse test reads Closed()); an upstream counts as secure only over a TLS-built carrier or a TLS scheme; a deadline/timer must precede the "
-      "blocking client handshake in every Upstream.Connect (violated on the pinned tree at all five: recorded known findings). On every path on which the last Upstream.Connect of the failover loop returned nil the error returned is nil, that call's result or produced after it. If the direct dial is guarded by scheme tests, every stream network net.Dial knows reaches it. Whenever the reuse test finds no usable session, Connect runs the round over the upstreams: no path (hold-off, back-off) turns a local connection away untried (R16.10); the reuse guard is followed through helpers that wrap open(). Connect never rewrites the upstream's configured address, so the next attempt on the same upstream dials what was configured (R16.11).",
+      "blocking client handshake in every Upstream.Connect (violated on the pinned tree at all five: recorded known findings). On every path on which the last Upstream.Connect of the failover loop returned nil the error returned is nil, that call's result or produced after it. If the direct dial is guarded by scheme tests, every stream network net.Dial knows reaches it. Whenever the reuse test finds no usable session, Connect runs the round over the upstreams: no path (hold-off, back-off) turns a local connection away untried (R16.10); the reuse guard is followed through helpers that wrap open(). Connect never rewrites the upstream's configured address, so the next attempt on the same upstream dials what was configured (R16.11). Every Lock of the upstream mutex is released on every path (R16.12); a failed stream open reaches the listener as a nil interface, never as a nil pointer inside one (R16.13).",
       "Not decided: numeric time bounds, OS connect time-outs, reconnect after loss (smux keep-alive timing).")
 
 claim("C18",
@@ -106,7 +106,7 @@ claim("C18",
       "dispatchers, each switch has an error-returning default, a dispatcher that switches on an expression computed from the scheme is rejected; sibling switches agree; every implementation chosen for a +tls scheme sets its "
       "secure flag on every successful +tls path and ProtoAddress.Addr covers the admitted socket/packet schemes; all Unmarshal{YAML,JSON,Flag} "
       "forms of a configuration type reach the same dispatcher (Channels.UnmarshalFlag does not: recorded known finding); no upstream's Connect (or a helper it calls on its receiver) writes any field of the configured address — scheme, credentials, host — so every reconnect interprets the same address; dispatchers may be switch statements or map[string]constructor tables with a comma-ok miss branch; no unchecked type assertion on decoded configuration data that valid input can reach; no maybe-nil pointer is "
-      "dereferenced unguarded in the parsing cone. An upstream counts as an encrypted transport only over a TLS-built carrier or under a test for a TLS scheme. No parsing function returns a nil object together with a possibly-nil error. However the DNS server is started, a +tls endpoint gets a TLS listener: ListenAndServe, or ActivateAndServe on a listener from crypto/tls (R18.9). Startup, which consumes the +tls marker of its configured address in place, is never called in a loop on one server object (R18.10).",
+      "dereferenced unguarded in the parsing cone. An upstream counts as an encrypted transport only over a TLS-built carrier or under a test for a TLS scheme. No parsing function returns a nil object together with a possibly-nil error. However the DNS server is started, a +tls endpoint gets a TLS listener: ListenAndServe, or ActivateAndServe on a listener from crypto/tls (R18.9). Startup, which consumes the +tls marker of its configured address in place, is never called in a loop on one server object (R18.10). A listener's forward address is dialled with its scheme as the network: a +tls forward is refused, never dialled in clear (R18.11).",
       "Not decided: net/url parsing, the yaml/reflection bridge, arbitrary malformed strings. README table is transcribed in the checker.")
 
 claim("C07",
@@ -115,7 +115,7 @@ claim("C07",
       "+/- constants (rotation invariance = wrap safety); the bounded ack memory evicts from the head and every append is followed by the bound on all "
       "paths; every Lock in the DNS packages is released (directly or by a passed defer) on every path to every return; closures invoked under a queue "
       "mutex cannot block on a channel; outgoing acks are in.NextSeqNo-1 and incoming acks/packets reach out.UpdateAcked/in.Append of the same endpoint; "
-      "the chunking loop runs only where mtu > 0 holds. the in-queue releases only NextSeqNo in order, parks only unseen in-window packets and remembers them as seen; OutQueue.Write's returned count covers every queued chunk; acked chunks are removed by sequence number equality. ack/payload fields of an Err-bearing answer reach the queues only on Err == nil; no function re-locks a mutex field it holds (cone incl. func-typed fields). lock-protected fields are written under one common mutex everywhere; the mutexes of the tunnel are acquired in one global order. a flag raised around a region and lowered on success is lowered on error returns too. Not a delivery proof. Every Unlock releases a mutex held on every path reaching it; the retransmitting poller closes the connection only under an identity test of the exchange's error (never on accumulated fresh transient failures). A chunk the in-queue refuses leaves the queue unchanged and every refusal depends on the chunk offered (no sticky refusal).",
+      "the chunking loop runs only where mtu > 0 holds. the in-queue releases only NextSeqNo in order, parks only unseen in-window packets and remembers them as seen; OutQueue.Write's returned count covers every queued chunk; acked chunks are removed by sequence number equality. ack/payload fields of an Err-bearing answer reach the queues only on Err == nil; no function re-locks a mutex field it holds (cone incl. func-typed fields). lock-protected fields are written under one common mutex everywhere; the mutexes of the tunnel are acquired in one global order. a flag raised around a region and lowered on success is lowered on error returns too. Not a delivery proof. Every Unlock releases a mutex held on every path reaching it; the retransmitting poller closes the connection only under an identity test of the exchange's error (never on accumulated fresh transient failures). A chunk the in-queue refuses leaves the queue unchanged and every refusal depends on the chunk offered (no sticky refusal). When data arrives every registered reader of the in-queue is notified (R07.21).",
       "Not decided: delivery, retransmission convergence, duplicate suppression over real loss histories, liveness.")
 
 claim("C13",
@@ -124,7 +124,7 @@ claim("C13",
       "share one critical section; in every handler all stores to the session, calls on its queues and closeConnection are on the err==nil edge of "
       "validateAndGetUser(request id, source address), which itself updates last-contact only after the address comparison and succeeds only for the owner's "
       "address; a table slot is cleared only for a session read from that same table; closeConnection clears the live slot only after a pointer-identity test "
-      "with its occupant. The table size equals the user-id modulus of the wire format. Address equality is full String() equality (directly or via a helper summarised as such); the client adopts a user id only from an error-free version answer. Memory taken from a sync.Pool never ends up in a decoded request, a parked packet or a stream. A version answer names a session created for that very request. A retired session's record decides an answer only where the live slot has been found empty (identifiers are reused). The session identifier is decoded in arithmetic wide enough for every identifier handed out: no 8-bit arithmetic widened afterwards (R13.10).",
+      "with its occupant. The table size equals the user-id modulus of the wire format. Address equality is full String() equality (directly or via a helper summarised as such); the client adopts a user id only from an error-free version answer. Memory taken from a sync.Pool never ends up in a decoded request, a parked packet or a stream. A version answer names a session created for that very request. A retired session's record decides an answer only where the live slot has been found empty (identifiers are reused). The session identifier is decoded in arithmetic wide enough for every identifier handed out: no 8-bit arithmetic widened afterwards (R13.10). A live slot is cleared by the pruner only under a condition on its own occupant, never on account of the tombstone at the same index.",
       "Not decided: interleavings of the unlocked table reads on the message path, expiry timing.")
 
 claim("C12",
@@ -133,7 +133,7 @@ claim("C12",
       "and the client's answer decoder both run under a deferred recover() installed before any message-derived work; every invoked func-typed field of "
       "the command table is non-nil in all entries or nil-tested before each call; client-requested sizes reach allocations / the stored fragment size "
       "only on paths with constant upper (and, for the stride, positive lower) bounds; the answer decoder turns a recovered panic into a non-nil named error result; handlers touch session state only after the owner check; an error answer always decodes to a non-nil error; parked out-of-order packets are bounded by the window test; every data-driven loop in the untrusted cone changes a loop-carried "
-      "exit variable on every cyclic path. Every Lock in the DNS endpoint is released on every path out of the function (R12.10). An error answer's Err is provably non-nil on every successful decode, through helpers (R12.9); a codec detection step always leaves a codec stored (R12.11).",
+      "exit variable on every cyclic path. Every Lock in the DNS endpoint is released on every path out of the function (R12.10). An error answer's Err is provably non-nil on every successful decode, through helpers (R12.9); a codec detection step always leaves a codec stored (R12.11). The client indexes the data of a decoded answer only within its length, outside the decoder's recover (R12.12).",
       "Not decided: numeric time/allocation bounds, miekg's own parsing, unrecoverable runtime errors. miekg's one-question rule and lack of recover are trusted facts.")
 
 claim("C08",
@@ -151,7 +151,7 @@ claim("C11",
       "on err==nil; version handshake only with a preset or successfully detected query type) and Handshake succeeds only after the mandatory steps returned nil; "
       "every candidate codec is registered and every upstream candidate has a test pattern; the fragment-probe generator and checker use equal constants and both "
       "ends use the single DownloadCodecCheck; a candidate codec / query type is committed only on the no-error edge of its own probe (facts established after the candidate was picked); the upstream fragment size is recomputed after the last step that can change the upstream codec; the fragment size recorded as working is the very value that was probed; every loop in Handshake's synchronous cone changes a loop-carried exit variable on every cyclic path; every codec "
-      "assigned to the upstream direction without a probe is injective under ASCII case folding. Every Unlock in the DNS client releases a mutex held on every path reaching it (an unlock of an unlocked mutex ends the process instead of reporting a failed handshake). The step that commits a probed value reports a failed exchange with the server as a failure. The regular expressions of the server's name unescaper are anchored, so what the probed codec sent is what is decoded whatever the payload (R11.11). A codec detection step never stores a codec whose probe failed on that path and never returns, connection open, without having stored one (R11.13); the dot inserter never leaves an empty label for any fragment size (R11.12).",
+      "assigned to the upstream direction without a probe is injective under ASCII case folding. Every Unlock in the DNS client releases a mutex held on every path reaching it (an unlock of an unlocked mutex ends the process instead of reporting a failed handshake). The step that commits a probed value reports a failed exchange with the server as a failure. The regular expressions of the server's name unescaper are anchored, so what the probed codec sent is what is decoded whatever the payload (R11.11). A codec detection step never stores a codec whose probe failed on that path and never returns, connection open, without having stored one (R11.13); the dot inserter never leaves an empty label for any fragment size (R11.12). The fragment-size probe answer's header is at least as long as the data answer's, so a payload size that passed the probe fits a data answer (R11.14).",
       "Not decided: 'probe passed => data works on that path', 8-bit mangling, size limits, lost replies to a commit.")
 
 claim("C09",
@@ -161,7 +161,7 @@ claim("C09",
       "for the constants written; both sides use the same codec object, matching header helpers and one byte order; the 1+3(+2) header is emitted and "
       "stripped with equal constants under the same flag, user ids are base-36, 2 characters, modulo 36^2; dot insertion <= 63, dotting threshold <= 63, "
       "the dot inserter is proven (linear entailment along paths) to emit pieces of at most 63 octets and a non-empty piece after every dot; no consuming step of the name unescaper is guarded more strictly than its width; names bounded from 253 and every question name comes from PrepareHostname under err==nil; command codes are distinct under case folding and the "
-      "cache-busting alphabet is lower-case letters and digits. The cache-busting header part has a fixed width for every value it can take (a formatted counter's range fits its padded width). The regular expressions that decide the width of an unescaping step are anchored at the start. The server's decoder of the Base85 upstream codec gives ascii85.Decode worst-case room (R09.7); base and width of the user id are read from hand-written digit arithmetic too.",
+      "cache-busting alphabet is lower-case letters and digits. The cache-busting header part has a fixed width for every value it can take (a formatted counter's range fits its padded width). The regular expressions that decide the width of an unescaping step are anchored at the start. The server's decoder of the Base85 upstream codec gives ascii85.Decode worst-case room (R09.7); base and width of the user id are read from hand-written digit arithmetic too. The Base85 substitution table covers the bytes the DNS library reads as escape or separator (R09.8).",
       "Not decided: size budget (float/codec ratio) vs. name limit for every payload, miekg escaping of 8-bit output, value equality for all field values.")
 
 claim("C10",
@@ -169,7 +169,7 @@ claim("C10",
       "Decides the agreement structure of response carriage: response Encode/Decode layouts agree (widths, fields, tag constants, codec object, byte order); "
       "the record types constructed by the Wrap* functions equal the case sets of the reassembly and ordering type switches and the dispatcher covers every "
       "selectable query type; per record type the order-tag bytes prepended equal the prefix stripped; tag + chunk fills A (4) and AAAA (16) exactly; CNAME, MX "
-      "and SRV targets are built by PrepareHostname; no character-set trimming in the reassembly cone; per-record payload constants stay within the record type's capacity; no capacity guard in a Wrap* function is decided by its operand type alone and narrowing conversions there are proven in range; a wrapping helper never appends to a slice parameter that a caller fills with a sub-slice of a longer buffer; a message whose construction returned an error is never written to the wire; the private RR type registered with miekg equals the type emitted and queried. Memory taken from a sync.Pool is never stored into a field/element nor returned (a record is packed after the wrapping function returned). Every sort.Slice comparator of the reassembly indexes the slice being sorted. ascii85.Decode of a downstream answer has worst-case room or its consumed count is checked (R10.14). A record buffer of constant size is written completely on every path: records are never zero-padded (R10.15).",
+      "and SRV targets are built by PrepareHostname; no character-set trimming in the reassembly cone; per-record payload constants stay within the record type's capacity; no capacity guard in a Wrap* function is decided by its operand type alone and narrowing conversions there are proven in range; a wrapping helper never appends to a slice parameter that a caller fills with a sub-slice of a longer buffer; a message whose construction returned an error is never written to the wire; the private RR type registered with miekg equals the type emitted and queried. Memory taken from a sync.Pool is never stored into a field/element nor returned (a record is packed after the wrapping function returned). Every sort.Slice comparator of the reassembly indexes the slice being sorted. ascii85.Decode of a downstream answer has worst-case room or its consumed count is checked (R10.14). A record buffer of constant size is written completely on every path: records are never zero-padded (R10.15). A response decoder never reports success through a wrapped ReadString error that is nil because the encoder terminates the text, before the answer was filled in (R10.16).",
       "Not decided: miekg Pack/Unpack (escaping, TXT limits), capacity for all payload lengths, tag arithmetic beyond 512 records.")
 
 for pid in ["C01","C02","C03","C04","C05","C06","C07","C08","C09","C10","C11","C12","C13","C14","C15","C16","C17","C18"]:
